@@ -55,9 +55,13 @@ func gen(t *rapid.T) Case {
 		case "sub":
 			op.Name = pbt.PlainString().Draw(t, "name")
 		case "tagged":
-			op.Tags = pbt.M{pbt.PlainString().Draw(t, "k"): pbt.PlainString().Draw(t, "v")}
+			// keys from a small pool, so that an inherited key is tagged again - also with the empty
+			// value, which is a value like any other and wins over the inherited one
+			tk := rapid.OneOf(pbt.PlainString(), rapid.SampledFrom([]pbt.S{"k", "a", "env"}))
+			tv := rapid.OneOf(pbt.PlainString(), rapid.SampledFrom([]pbt.S{"", "", "v", "w"}))
+			op.Tags = pbt.M{tk.Draw(t, "k"): tv.Draw(t, "v")}
 			if rapid.Bool().Draw(t, "two") {
-				op.Tags[pbt.PlainString().Draw(t, "k2")] = pbt.PlainString().Draw(t, "v2")
+				op.Tags[tk.Draw(t, "k2")] = tv.Draw(t, "v2")
 			}
 		case "counter":
 			op.Name = pbt.S(rapid.SampledFrom([]string{"m0", "m1", "m2", ""}).Draw(t, "n"))
